@@ -37,6 +37,9 @@ enum Op {
     MultiNextOmit,
     /// `(NULL, ..), (next+1, ..), (NULL, ..)`
     MultiOmitNext1Omit,
+    /// `(next+2, ..), (NULL, ..)`: explicit id AHEAD of the counter, then a generated one in the same statement
+    /// (the statement must leave the counter at or above the explicit id: two more omitted inserts climb to it)
+    MultiAheadOmit,
     MultiOmitOmit,
     DelMax,
     DelAll,
@@ -52,8 +55,8 @@ enum Op {
 }
 use Op::*;
 
-const ALL_OPS: [Op; 19] = [
-    InsOmit, InsNull, InsExplicit1, InsExplicitNext, InsExplicitNext5, InsExplicitLarge, MultiNextOmit, MultiOmitNext1Omit, MultiOmitOmit, DelMax, DelAll, UpdMaxToNext, Truncate, TxnRollbackIns, SavepointRollbackIns, TxnCommitIns, Reopen,
+const ALL_OPS: [Op; 20] = [
+    InsOmit, InsNull, InsExplicit1, InsExplicitNext, InsExplicitNext5, InsExplicitLarge, MultiNextOmit, MultiOmitNext1Omit, MultiAheadOmit, MultiOmitOmit, DelMax, DelAll, UpdMaxToNext, Truncate, TxnRollbackIns, SavepointRollbackIns, TxnCommitIns, Reopen,
     BatchNext, BatchNull,
 ];
 
@@ -68,6 +71,7 @@ impl Op {
             InsExplicitLarge => "insert explicit large",
             MultiNextOmit => "insert (explicit next, omitted)",
             MultiOmitNext1Omit => "insert (omitted, explicit next+1, omitted)",
+            MultiAheadOmit => "insert (explicit next+2, omitted)",
             MultiOmitOmit => "insert (omitted, omitted)",
             DelMax => "delete max",
             DelAll => "delete all",
@@ -352,6 +356,7 @@ impl<'a> Runner<'a> {
             InsExplicitLarge => Self::do_insert(t, f, &simple(vec![Some(LARGE.max(next))], false), true, rep),
             MultiNextOmit => Self::do_insert(t, f, &simple(vec![Some(next), None], false), true, rep),
             MultiOmitNext1Omit => Self::do_insert(t, f, &simple(vec![None, Some(next + 1), None], false), true, rep),
+            MultiAheadOmit => Self::do_insert(t, f, &simple(vec![Some(next + 2), None], false), true, rep),
             MultiOmitOmit => Self::do_insert(t, f, &simple(vec![None, None], false), true, rep),
             DelMax | DelAll => {
                 let Some(&m) = f.table.last() else { return StepEnd::NotApplicable };
@@ -563,11 +568,12 @@ fn passes() -> Vec<Pass> {
         Pass { name: "full", ops: ALL_OPS.to_vec(), depth_quick: 3, depth_thorough: 4 },
         // the known triggers (statement-local counter, insert_batch, explicit ids the counter never sees)
         // removed so that the remainder reaches full depth
-        Pass { name: "no-known-triggers", ops: without(&[MultiNextOmit, MultiOmitNext1Omit, BatchNext, BatchNull, UpdMaxToNext, InsNull, TxnCommitIns, InsExplicitLarge]), depth_quick: 4, depth_thorough: 5 },
+        Pass { name: "no-known-triggers", ops: without(&[MultiNextOmit, MultiOmitNext1Omit, MultiAheadOmit, BatchNext, BatchNull, UpdMaxToNext, InsNull, TxnCommitIns, InsExplicitLarge]), depth_quick: 4, depth_thorough: 5 },
         // no multi-row statement at all: the deepest pass
         Pass { name: "core-small", ops: vec![InsOmit, InsExplicitNext5, DelMax, Truncate, TxnRollbackIns, Reopen], depth_quick: 5, depth_thorough: 7 },
-        // generation, deletion, rollback, savepoint, reopen, two-row generation (reaches KF-C12-04 at depth 5)
-        Pass { name: "core", ops: vec![InsOmit, InsExplicitNext, MultiOmitOmit, DelMax, Truncate, TxnRollbackIns, SavepointRollbackIns, Reopen], depth_quick: 4, depth_thorough: 6 },
+        // generation, deletion, rollback, savepoint, reopen, two-row generation (reaches KF-C12-04 at depth 5), and the
+        // two-row statement whose explicit id lies ahead of the counter (delete it, then climb to it: depth 4)
+        Pass { name: "core", ops: vec![InsOmit, InsExplicitNext, MultiOmitOmit, MultiAheadOmit, DelMax, Truncate, TxnRollbackIns, SavepointRollbackIns, Reopen], depth_quick: 4, depth_thorough: 6 },
     ]
 }
 
@@ -694,7 +700,7 @@ impl Check for C12 {
         let mut s = Spec::new(
             "C12",
             "model_checking",
-            "every history over {insert with omitted id, with NULL id, with explicit id 1 / next / next+5 / large, multi-row inserts mixing omitted and explicit ids (explicit = the value the next omitted one gets), two omitted; delete max row, delete all, TRUNCATE; BEGIN+insert+ROLLBACK, SAVEPOINT+insert+ROLLBACK TO, BEGIN+insert+COMMIT; reopen; insert_batch with explicit next / NULL id; UPDATE of the max id to next} on t(id INT PRIMARY KEY AUTO_INCREMENT, a INT): all 19 ops to depth 3 (quick) / 4 (thorough), 11 ops without the known triggers to depth 4 / 5, 6 ops to depth 5 / 7, 8 core ops to depth 4 / 6, each history executed from a fresh database (no merging: header counter, in-memory row-id counter, index state are hidden); 'next' is resolved against the set of values the harness has seen in the column; a case is one history, non-trivial when its last op attempts an insert; generated values are read from RETURNING id and cross-checked with SELECT *",
+            "every history over {insert with omitted id, with NULL id, with explicit id 1 / next / next+5 / large, multi-row inserts mixing omitted and explicit ids (explicit = the value the next omitted one gets, or explicit two ahead of it followed by an omitted one), two omitted; delete max row, delete all, TRUNCATE; BEGIN+insert+ROLLBACK, SAVEPOINT+insert+ROLLBACK TO, BEGIN+insert+COMMIT; reopen; insert_batch with explicit next / NULL id; UPDATE of the max id to next} on t(id INT PRIMARY KEY AUTO_INCREMENT, a INT): all 20 ops to depth 3 (quick) / 4 (thorough), 11 ops without the known triggers to depth 4 / 5, 6 ops to depth 5 / 7, 9 core ops to depth 4 / 6, each history executed from a fresh database (no merging: header counter, in-memory row-id counter, index state are hidden); 'next' is resolved against the set of values the harness has seen in the column; a case is one history, non-trivial when its last op attempts an insert; generated values are read from RETURNING id and cross-checked with SELECT *",
         );
         s.assumptions = &[
             "oracle = property statement only: generated values are distinct from every value the column ever held (explicit, generated, rolled back) and increase among themselves; a statement whose explicit ids are fresh and distinct must not fail with a PRIMARY KEY duplicate caused by a generated value",
